@@ -35,6 +35,10 @@ type WalkOpt struct {
 	Normalise bool
 	Algs      []string
 	Exclude   []string // simple patterns: "a" (component named a, and everything below) or "b/" (everything below a component b)
+	// ExcludeByLocation: patterns are held against the real location of an entry (all links resolved)
+	// instead of the name path under which it is reached. The statement leaves open which of the two
+	// paths counts; callers compare the results under both readings and only judge cases where they agree.
+	ExcludeByLocation bool
 	Strip     []string
 	Paths     []string // relative to the base directory
 }
@@ -158,7 +162,14 @@ func (w *walker) record(key string, content []byte, strip bool) {
 // visit walks the entry reached under the name path (as the caller will see it), whose node is n
 // and whose canonical location is canon.
 func (w *walker) visit(path string, n *Node, canon []string) {
-	if w.err != "" || w.excluded(path) {
+	if w.err != "" {
+		return
+	}
+	if w.opt.ExcludeByLocation {
+		if w.excluded(strings.Join(canon, "/")) {
+			return
+		}
+	} else if w.excluded(path) {
 		return
 	}
 	switch n.Kind {
@@ -185,6 +196,9 @@ func (w *walker) visit(path string, n *Node, canon []string) {
 			return
 		}
 		if tn.Kind == 'f' {
+			if w.opt.ExcludeByLocation && w.excluded(strings.Join(tc, "/")) {
+				return
+			}
 			w.record(path, tn.Content, true)
 			return
 		}
